@@ -173,6 +173,7 @@ namespace vh {
 // abort, exit()) the context is written to the event log so the violation names its history.
 void set_ctx(const std::string& ctxkey, const std::string& ctx);
 void install_crash_handlers();
+[[noreturn]] void crash_now(const char* what);   // async-signal-safe: writes the crash event with the current context and ends the process (exit status 3)
 void end_ok();                       // writes the "end" event: workload completed
 [[noreturn]] void harness_fail(const std::string& msg);   // exit 2
 }
